@@ -1207,6 +1207,24 @@ func c16Nontrivial(c *c16Case, out string) bool {
 	return adversarial || strings.HasPrefix(out, "file") || strings.HasPrefix(out, "list")
 }
 
+// c16NoSeekCase: a custom fs.FS whose files cannot seek (Fault 4).  Such a case runs in the child process whose
+// working directory is W, where files with the names of files under the root (secret.txt, index.html, a+b.txt,
+// static/index.html) lie with MARK-OUT content: serving the requested name from anywhere else than the configured
+// file system (the operating system's view of the name, relative to the working directory) then shows as content
+// from outside the root, whatever status a refusal has.  The model's answer does not depend on the working directory.
+func c16NoSeekCase(c *c16Case) bool {
+	if c.Fault != 4 || c.Chdir != "" {
+		return false
+	}
+	switch c.Kind {
+	case 1:
+		return c.Variant == 16 || c.Variant == 17
+	case 2:
+		return c.Variant == 3 || c.Variant == 4 || c.Variant == 5 || c.Variant == 7
+	}
+	return false
+}
+
 func c16Run(ci any) (res Result) {
 	c := ci.(*c16Case)
 	c16Setup()
@@ -1218,8 +1236,14 @@ func c16Run(ci any) (res Result) {
 			res = Result{Obs: "harness-panic", Oracle: fmt.Sprintf("panic outside ServeHTTP: %v", p)}
 		}
 	}()
-	if cwd := c16CaseCwd(c); cwd != "" && os.Getenv(c16ChildEnv) == "" {
-		return c16ChildRun(cwd, c)
+	cwd := c16CaseCwd(c)
+	if cwd == "" && c16NoSeekCase(c) {
+		cwd = "W"
+	}
+	if cwd != "" && os.Getenv(c16ChildEnv) == "" {
+		res = c16ChildRun(cwd, c)
+		c16NoteShape(c, res)
+		return res
 	}
 	switch c.Kind {
 	case 0:
@@ -1233,7 +1257,9 @@ func c16Run(ci any) (res Result) {
 	// fsFile with a 500: http.ServeContent needs a ReadSeeker and echo says so in the error.  The positive clause
 	// of the property ("an existing file is served") is read for file systems whose files can seek (assumption in
 	// obligations/C16.json); the branch itself stays in the model and in the correspondence.
-	if c.Fault == 4 && strings.HasPrefix(res.Oracle, "existing file ") && strings.HasSuffix(res.Obs, "err500") {
+	// (Refused: with whichever 4xx / 5xx status — the status is not part of the assumption.)
+	c16NoteShape(c, res)
+	if c.Fault == 4 && strings.HasPrefix(res.Oracle, "existing file ") && c16ObsRefusal(c, res.Obs) {
 		res.Oracle = ""
 		res.Tags = append(res.Tags, "non-seekable-file-refused")
 	}
@@ -1777,6 +1803,7 @@ func init() {
 		Run:            c16Run,
 		Shrink:         c16Shrink,
 		Known:          c16Known,
+		Tolerable:      c16Tolerable,
 		Correspondence: "C16.mw / C16.staticDir / C16.fsFile (lean/EchoModel/C16.lean) vs middleware.StaticWithConfig, echo.StaticDirectoryHandler, fsFile through e.ServeHTTP",
 		Extra: func(tier string, seed int64) map[string]any {
 			c16Cleanup()
@@ -1789,14 +1816,28 @@ func init() {
 //
 // F18: the path handed to url.PathUnescape is already decoded (URL.Path, or a wildcard
 // parameter taken from it when URL.RawPath is empty), so a file whose name contains '%' cannot
-// be requested by its clean path: the second decoding fails (500) or names another file (404).
-// Signature: the positive rule of the oracle failed, URL.RawPath is empty, URL.Path contains a
-// literal '%', and the model predicts exactly the observed behaviour.
+// be requested by its clean path: the second decoding fails (the request is refused) or names
+// another file (not found; in HTML5 mode the middleware answers a not-found with the index document).
+// Signature = the failing INPUT and the failed clause: the positive rule of the oracle failed (so no
+// containment rule did), on a configuration that unescapes the request path (the Static middleware,
+// the Static / StaticFS routes; NOT the File helpers, which take the name as it is), URL.RawPath is
+// empty, URL.Path contains a literal '%', and the file was treated as undecodable / not found: refused
+// with some 4xx / 5xx status (whichever), or - by the middleware - handed to the next handler, or answered
+// with the HTML5 fallback document.  Neither the exact status nor the agreement with the model is part of
+// the signature.
 func c16Known(ci any, res Result, modelObs string) string {
 	c := ci.(*c16Case)
-	if strings.HasPrefix(res.Oracle, "existing file ") && c.RawPath == "" && strings.Contains(string(c.Path), "%") &&
-		res.Ops != "" && res.Obs == modelObs {
+	if !strings.HasPrefix(res.Oracle, "existing file ") || c.RawPath != "" || !strings.Contains(string(c.Path), "%") || c.Kind == 2 {
+		return ""
+	}
+	if c16ObsRefusal(c, res.Obs) {
 		return "F18"
+	}
+	if o, ok := c16ObsOf(c, res.Obs); ok && c.Kind == 0 {
+		// the middleware treats the file as not found: the next handler answers, or (HTML5) the index document does
+		if o.out[0] == "next-ok" || c.HTML5 && !c.Ctor && o.out[0] == "file" {
+			return "F18"
+		}
 	}
 	return ""
 }
